@@ -381,6 +381,84 @@ impl Monitor for C20 {
                                 }
                             }
                         }
+                        // the liquidity quotes themselves at the u64 edge of each token: the largest liquidity whose token B (A)
+                        // amount still fits 64 bits and its neighbours, with the price below / inside / above the range. Where the
+                        // program's amount functions succeed the quote must carry the same estimate; where they report an
+                        // overflow the quote must be an error (never a wrapped or clipped number, never a panic)
+                        {
+                            use num_bigint::BigUint;
+                            let two64 = BigUint::from(1u8) << 64usize;
+                            let cases: [(u128, i32); 3] = [
+                                (pl.saturating_sub(1).max(decode::MIN_SQRT_PRICE), pos.lower - 1),
+                                (pool.sqrt_price, pool.tick_current_index),
+                                (pu, pos.upper),
+                            ];
+                            for (price, tick) in cases {
+                                let (a_span, b_span): (Option<(u128, u128)>, Option<(u128, u128)>) = if tick < pos.lower {
+                                    (Some((pl, pu)), None)
+                                } else if tick < pos.upper {
+                                    (Some((price.clamp(pl, pu), pu)), Some((pl, price.clamp(pl, pu))))
+                                } else {
+                                    (None, Some((pl, pu)))
+                                };
+                                let mut cand: Vec<u128> = Vec::new();
+                                if let Some((lo, hi)) = b_span {
+                                    if hi > lo {
+                                        let lb = (BigUint::from(u128::MAX)) / BigUint::from(hi - lo);
+                                        if let Some(x) = lb.to_u128() {
+                                            cand.extend_from_slice(&[x.saturating_sub(1), x, x.saturating_add(1)]);
+                                        }
+                                    }
+                                }
+                                if let Some((lo, hi)) = a_span {
+                                    if hi > lo {
+                                        let la = (BigUint::from(u64::MAX) * BigUint::from(hi) * BigUint::from(lo)) / (BigUint::from(hi - lo) * &two64);
+                                        if let Some(x) = la.to_u128() {
+                                            cand.extend_from_slice(&[x.saturating_sub(1), x, x.saturating_add(1), x.saturating_add(2)]);
+                                        }
+                                    }
+                                }
+                                for l in cand {
+                                    if l == 0 {
+                                        continue;
+                                    }
+                                    for inc in [true, false] {
+                                        cov.probe("boundary_liquidity_quote_probes");
+                                        let pa = match a_span {
+                                            Some((lo, hi)) if hi > lo => whirlpool::math::get_amount_delta_a(lo, hi, l, inc).ok(),
+                                            _ => Some(0),
+                                        };
+                                        let pb = match b_span {
+                                            Some((lo, hi)) if hi > lo => whirlpool::math::get_amount_delta_b(lo, hi, l, inc).ok(),
+                                            _ => Some(0),
+                                        };
+                                        let sq: Result<Option<(u64, u64)>, ()> = if inc {
+                                            std::panic::catch_unwind(|| sdk::increase_liquidity_quote(l, 0, price, pos.lower, pos.upper, None, None).ok().map(|q| (q.token_est_a, q.token_est_b))).map_err(|_| ())
+                                        } else {
+                                            std::panic::catch_unwind(|| sdk::decrease_liquidity_quote(l, 0, price, pos.lower, pos.upper, None, None).ok().map(|q| (q.token_est_a, q.token_est_b))).map_err(|_| ())
+                                        };
+                                        let what = if inc { "increase_liquidity_quote" } else { "decrease_liquidity_quote" };
+                                        cov.eval(format!("liquidity_quote_boundary|{}|program_ok={}|sdk={}", what, pa.is_some() && pb.is_some(), match &sq { Ok(Some(_)) => "ok", Ok(None) => "err", Err(_) => "panic" }));
+                                        match (pa, pb, sq) {
+                                            (_, _, Err(())) => out.push(viol("sdk_panics", ev.idx, format!("{} panics for L={} on {}..{} at price {}", what, l, pos.lower, pos.upper, price))),
+                                            (Some(a), Some(b), Ok(q)) => {
+                                                if q != Some((a, b)) {
+                                                    out.push(viol("sdk_liquidity_quote_differs", ev.idx, format!("{} L={} on {}..{} at price {} (tick {}): program amounts {} / {}, SDK {:?}", what, l, pos.lower, pos.upper, price, tick, a, b, q)));
+                                                }
+                                            }
+                                            (_, _, Ok(Some(q))) => out.push(viol("sdk_quotes_overflowing_amounts", ev.idx, format!("{} L={} on {}..{} at price {} (tick {}): the program rejects the amounts as overflowing (A {:?}, B {:?}) but the SDK returns {:?}", what, l, pos.lower, pos.upper, price, tick, pa, pb, q))),
+                                            _ => {}
+                                        }
+                                        if !out.is_empty() {
+                                            break;
+                                        }
+                                    }
+                                    if !out.is_empty() {
+                                        break;
+                                    }
+                                }
+                            }
+                        }
                         // next sqrt price from an amount of token A / B at the pool's price, liquidity at the same magnitudes
                         for l in [pool.liquidity.max(1), 1u128 << 100, 1u128 << 127, u128::MAX] {
                             for amount in [1u64, 1_000_000, u64::MAX] {
